@@ -274,7 +274,11 @@ impl Scenario {
                     Some(e) => json!({"paths": paths, "extensions": e}),
                     None => json!({"paths": paths}),
                 },
-                Res::Cmd { key } => json!({"cmd_stdout": format!("@cmd key={}", key)}),
+                // `<key>@<gate>`: the command's exit is gated on the named rendezvous set
+                Res::Cmd { key } => match key.split_once('@') {
+                    Some((k, g)) => json!({"cmd_stdout": format!("@cmd key={} gate={}", k, g)}),
+                    None => json!({"cmd_stdout": format!("@cmd key={}", key)}),
+                },
             }
         };
         let mut targets = Map::new();
